@@ -729,6 +729,21 @@ func (f *File) UpdateSidx(addIfNotExists, nonZeroEPT bool) error {
 	if !ok {
 		return fmt.Errorf("no trex box found for track %d", refTrak.Tkhd.TrackID)
 	}
+	if f.FragEncMode == EncModeSegment && f.EncOptimize&OptimizeTrun != 0 {
+		// Encode will optimize tfhd/trun of every fragment (see Fragment.Encode), which changes
+		// the segment sizes. Do the same (idempotent) optimization now to get the sizes written.
+		for _, seg := range segs {
+			for _, frag := range seg.Fragments {
+				if frag.Moof == nil || frag.Moof.Traf == nil || frag.Moof.Traf.Trun == nil {
+					continue
+				}
+				err := frag.Moof.Traf.OptimizeTfhdTrun()
+				if err != nil {
+					return err
+				}
+			}
+		}
+	}
 	segDatas, err := findSegmentData(segs, refTrak, trex)
 	if err != nil {
 		return fmt.Errorf("failed to find segment data: %w", err)
